@@ -1,5 +1,6 @@
 import inspect
 from collections.abc import Mapping
+from inspect import Parameter
 from typing import Any, Generic, Optional, TypeVar
 
 from ...common import TypeHint
@@ -63,8 +64,20 @@ def _is_context_sensitive(default: "CallableColumnDefault"):
     except AttributeError:
         return True
 
-    parameters = inspect.signature(wrapped_callable).parameters
-    return len(parameters) > 0
+    try:
+        parameters = inspect.signature(wrapped_callable).parameters
+    except (TypeError, ValueError):
+        # builtin types like ``dict`` have no signature,
+        # sqlalchemy calls such objects without arguments
+        return False
+
+    # sqlalchemy treats callable as context-sensitive
+    # only if it has a positional parameter without default
+    return any(
+        param.default is Parameter.empty
+        and param.kind in (Parameter.POSITIONAL_ONLY, Parameter.POSITIONAL_OR_KEYWORD)
+        for param in parameters.values()
+    )
 
 
 def _unwrap_mapped_annotation(type_hint: TypeHint) -> TypeHint:
